@@ -219,6 +219,9 @@ def rand_engine_scenario(rng, *, nsends=None, provs=None, rtc=None, allow=None, 
             if d["cbs"][c - 1]["group"] in ("cond", "validators") and rng.random() < 0.7:
                 continue
             script[str(c)] = [rng.choice(evs + ["nope"]) for _ in range(rng.randint(1, 2))]
+            if rng.random() < 0.25:
+                # ... after attaching, from inside the callback, a listener that has no callbacks at all
+                script[str(c)] = [{"listen": "empty"}] + script[str(c)]
     n = nsends or rng.randint(1, 8)
     steps = [{"op": "new", "i": 1, "cls": 1, "opt": opt, "stored": "", "provs": provs,
               "gv": rand_gv(rng)}]
@@ -241,6 +244,9 @@ def rand_engine_scenario(rng, *, nsends=None, provs=None, rtc=None, allow=None, 
                 cb["yields"] = 0
     scn = {"classes": [d], "steps": steps, "script": script, "failAt": fail_at, "budget": budget,
            "ni": 3, "driver": driver}
+    # listeners may be falsy objects (an empty journal), value-like or unhashable: an object is a listener whatever it is
+    if any(p not in ("sm", "model") for p in provs):
+        scn["listener_kind"] = rng.choice(["attr", "attr", "attr", "falsy_len", "falsy_bool", "equal", "unhashable"])
     # state values of every kind (0, "", (), False, enum members ...): what a state's value is changes nothing
     if rng.random() < values_p:
         scn["value_scheme"] = assign_values(rng, d)
